@@ -149,6 +149,10 @@ type genOpts struct {
 	// Force lists the JSON names of top-level fields that must be populated when
 	// they exist on the type.
 	Force []string
+	// MisAny: percentage of Any-typed slots (contained) that are filled with something other
+	// than a packed ContainedResource — the proto API permits it, the JSON form cannot express
+	// it; only totality checks use it.
+	MisAny int
 }
 
 var defaultGen = genOpts{MaxDepth: 4, Budget: 110, P0: 28, Contained: true}
@@ -287,6 +291,10 @@ func (g *resGen) fillField(m protoreflect.Message, f protoreflect.FieldDescripto
 		n := 1 + g.s.Intn(2)
 		l := m.Mutable(f).List()
 		for i := 0; i < n; i++ {
+			if g.o.MisAny > 0 && g.pct(g.o.MisAny) {
+				l.Append(protoreflect.ValueOfMessage(g.misAny().ProtoReflect()))
+				continue
+			}
 			cr := &bcrpb.ContainedResource{}
 			sub := &resGen{s: g.s, o: smallGen, budget: smallGen.Budget}
 			sub.fillContained(cr.ProtoReflect(), 1)
@@ -323,6 +331,34 @@ func (g *resGen) fillChoice(m protoreflect.Message, depth int) {
 		}
 	}
 	g.fill(m.Mutable(f).Message(), depth+1)
+}
+
+// misAny: an Any that does not hold a ContainedResource.
+func (g *resGen) misAny() *anypb.Any {
+	sub := &resGen{s: g.s, o: smallGen, budget: smallGen.Budget}
+	switch g.s.Intn(6) {
+	case 0: // a bare resource
+		cr := &bcrpb.ContainedResource{}
+		sub.fillContained(cr.ProtoReflect(), 1)
+		if inner := unwrapCR(cr); inner != nil {
+			if a, err := anypb.New(inner); err == nil {
+				return a
+			}
+		}
+	case 1: // a datatype
+		if a, err := anypb.New(&dtpb.HumanName{Family: &dtpb.String{Value: "x"}}); err == nil {
+			return a
+		}
+	case 2: // a message outside FHIR
+		if a, err := anypb.New(&anypb.Any{TypeUrl: "x"}); err == nil {
+			return a
+		}
+	case 3: // an unknown type
+		return &anypb.Any{TypeUrl: "type.googleapis.com/example.Unknown", Value: []byte{8, 1}}
+	case 4: // the right type, undecodable payload
+		return &anypb.Any{TypeUrl: "type.googleapis.com/google.fhir.r4.core.ContainedResource", Value: []byte{0xff, 0xff, 0xff}}
+	}
+	return &anypb.Any{}
 }
 
 func (g *resGen) fillContained(m protoreflect.Message, depth int) {
@@ -533,6 +569,18 @@ func (g *resGen) fillTemporal(m protoreflect.Message) {
 		}
 	}
 	t := time.Date(year, time.Month(mon), day, h, mi, sec, ns, loc)
+	if pname != "YEAR" && pname != "MONTH" && pname != "DAY" && g.s.Prob(5) {
+		// boundary instants: the epoch itself (value_us = 0, the zero value of the field), the
+		// microsecond before it, local midnight
+		switch g.s.Intn(3) {
+		case 0:
+			t = time.UnixMicro(0)
+		case 1:
+			t = time.UnixMicro(-1000000)
+		default:
+			t = time.Date(year, time.Month(mon), day, 0, 0, 0, 0, loc)
+		}
+	}
 	m.Set(fs.ByName("value_us"), protoreflect.ValueOfInt64(t.UnixMicro()))
 	m.Set(fs.ByName("timezone"), protoreflect.ValueOfString(zone))
 	m.Set(pf, protoreflect.ValueOfEnum(pv.Number()))
@@ -1025,4 +1073,136 @@ func (f fixedSrc) Str(alphabet []string, lo, hi int) string {
 		sb.WriteString(alphabet[f.Intn(len(alphabet))])
 	}
 	return sb.String()
+}
+
+// ---------------------------------------------------------------------------
+// aliasing: a resource built through the proto API may hold the same message object at
+// two positions (a shared HumanName under two contacts …).  That is a valid proto tree and
+// renders as two equal JSON elements; generators that allocate every element afresh never
+// produce it, and the text form of a case cannot express it, so it is a deterministic
+// post-pass driven by a number stored in the case.
+
+type aliasSlot struct {
+	parent protoreflect.Message
+	fd     protoreflect.FieldDescriptor
+	idx    int // -1: singular field
+	val    protoreflect.Message
+}
+
+func collectAliasSlots(m protoreflect.Message, out *[]aliasSlot, depth int) {
+	if depth > 40 {
+		return
+	}
+	m.Range(func(f protoreflect.FieldDescriptor, v protoreflect.Value) bool {
+		if f.Message() == nil || f.Message().FullName() == "google.protobuf.Any" || f.IsMap() {
+			return true
+		}
+		if f.IsList() {
+			l := v.List()
+			for i := 0; i < l.Len(); i++ {
+				*out = append(*out, aliasSlot{m, f, i, l.Get(i).Message()})
+				collectAliasSlots(l.Get(i).Message(), out, depth+1)
+			}
+			return true
+		}
+		*out = append(*out, aliasSlot{m, f, -1, v.Message()})
+		collectAliasSlots(v.Message(), out, depth+1)
+		return true
+	})
+}
+
+func reachesMsg(from protoreflect.Message, target any, depth int) bool {
+	if any(from.Interface()) == target {
+		return true
+	}
+	if depth > 40 {
+		return true // be conservative
+	}
+	found := false
+	from.Range(func(f protoreflect.FieldDescriptor, v protoreflect.Value) bool {
+		if f.Message() == nil || f.IsMap() {
+			return true
+		}
+		if f.IsList() {
+			l := v.List()
+			for i := 0; i < l.Len() && !found; i++ {
+				found = reachesMsg(l.Get(i).Message(), target, depth+1)
+			}
+			return !found
+		}
+		found = reachesMsg(v.Message(), target, depth+1)
+		return !found
+	})
+	return found
+}
+
+type aliasRnd struct{ seed, n uint64 }
+
+func (a *aliasRnd) Intn(n int) int {
+	if n <= 1 {
+		return 0
+	}
+	a.n++
+	return int(mix64(a.seed*0x9e3779b97f4a7c15+a.n)>>33) % n
+}
+
+// aliasSubtrees makes up to 3 positions of res hold a message object that also sits at another
+// position (same message type, no cycle).  Returns the number of positions rewritten.
+func aliasSubtrees(res proto.Message, seed int) int {
+	if seed == 0 {
+		return 0
+	}
+	s := &aliasRnd{seed: uint64(seed)}
+	done := 0
+	rounds := 1 + seed%3
+	for r := 0; r < rounds; r++ {
+		var slots []aliasSlot
+		collectAliasSlots(res.ProtoReflect(), &slots, 0)
+		// deterministic order: Range over fields is by field number for generated messages
+		by := map[protoreflect.FullName][]int{}
+		var names []protoreflect.FullName
+		for i, sl := range slots {
+			n := sl.val.Descriptor().FullName()
+			if _, ok := by[n]; !ok {
+				names = append(names, n)
+			}
+			by[n] = append(by[n], i)
+		}
+		var cands []protoreflect.FullName
+		for _, n := range names {
+			if len(by[n]) >= 2 {
+				cands = append(cands, n)
+			}
+		}
+		if len(cands) == 0 {
+			return done
+		}
+		// prefer complex elements (their children are navigated) two times out of three
+		var cx []protoreflect.FullName
+		for _, n := range cands {
+			if !isPrimitiveMD(slots[by[n][0]].val.Descriptor()) {
+				cx = append(cx, n)
+			}
+		}
+		pool := cands
+		if len(cx) > 0 && s.Intn(3) != 0 {
+			pool = cx
+		}
+		g := by[pool[s.Intn(len(pool))]]
+		a := slots[g[s.Intn(len(g))]]
+		b := slots[g[s.Intn(len(g))]]
+		if any(a.val.Interface()) == any(b.val.Interface()) {
+			continue
+		}
+		if reachesMsg(a.val, any(b.parent.Interface()), 0) {
+			continue // would close a cycle
+		}
+		if b.idx >= 0 {
+			b.parent.Mutable(b.fd).List().Set(b.idx, protoreflect.ValueOfMessage(a.val))
+		} else {
+			b.parent.Set(b.fd, protoreflect.ValueOfMessage(a.val))
+		}
+		done++
+	}
+	return done
 }
